@@ -1,6 +1,6 @@
 /-! Prototype for C11 (second half): media `Handlers` — a memoising resolver over a mutable mapping.
     `f` is the uncached resolution rule (exact key, else best match, else 415), an arbitrary function of the data. -/
-namespace Hd
+namespace Mh
 
 abbrev Data := List (String × Nat)          -- media type ↦ handler id
 abbrev Cache := List (String × Option Nat)  -- memo: arbitrary sub-memo of `f data` (LRU eviction = dropping entries)
@@ -145,4 +145,4 @@ theorem copy_preserves_mapping (f : Data → String → Option Nat) (s : St) :
 
 #print axioms resolve_fresh
 #print axioms ior_stale_witness
-end Hd
+end Mh
